@@ -6,12 +6,15 @@
     characterised exactly, is complete for every point of the CLOSED box at a parameter [t > 0]
     (flat boxes and touching rays included), and sound up to the widening factor.
     Thm 2 (float tier, every Flocq binary format): the IEEE special values of axis-parallel rays.
+    Thm 3 (float tier, every Flocq binary format, all direction components non-zero, no overflow or
+    underflow): a ray whose exact slab parameters clear each other by the relative margin [1 + 2u]
+    is accepted (end of the file).
     Two classes of rays are lost: they are genuine defects of the crate, stated as theorems about
     the faithful model and exhibited on binary64 ([..._refuted]). *)
 From Coq Require Import ZArith Reals Bool.
 From Coq Require Import Floats.SpecFloat.
 From Flocq Require Import Core BinarySingleNaN.
-From G3 Require Import Model.Num Model.Base Model.Vec Model.BBox Proofs.C14_real Proofs.C14_special Proofs.C14_float.
+From G3 Require Import Model.Num Model.Base Model.Vec Model.BBox Proofs.C14_real Proofs.C14_special Proofs.C14_float Proofs.C14_margin.
 Local Open Scope R_scope.
 
 (** ** Thm 1: real instance *)
@@ -127,17 +130,17 @@ Section C14_float.
                            (conj (y_outside_rejected prec emax Hprec Hmax b r i s W) (z_outside_rejected prec emax Hprec Hmax b r i s W))).
   Qed.
 
-  (** ** Thm 3 (float-tier completeness with margin), PARTIAL.
-      Full statement (not proved): with [inv = RN(1/d)], finite inputs and no NaN, if the exact entry/exit
-      parameters satisfy [t_exit_j >= t_enter_i (1 + 8u)] for [i <> j] and [t_exit > 0], the float test
-      returns [true].
+  (** ** Thm 3 (float-tier completeness with margin), first half: the COMPUTED parameters.
+      The full statement - with [inv = RN(1/d)], finite inputs, no overflow/underflow, if the exact
+      parameters satisfy [t_far_j >= t_near_i (1 + 2u)] for [i <> j] and [t_far > 0], the float test
+      returns [true] - is proved in Section C14_margin below ([C14_float_complete_margin]); it
+      supersedes this theorem, which is kept as the intermediate step it was.
       Proved here: the same conclusion from the hypothesis on the COMPUTED parameters
       [(face - origin) * inv] (finite, their widened values finite): their sorted intervals share some
       [t > 0] - with NO margin, equality of the two ends of a slab allowed (a flat slab computes both
       ends by the same operations, hence bit-equal: [C14_flat_slab_bit_equal]) - and the three far
-      ends are normal numbers.  Missing: the error analysis of the three roundings (reciprocal,
-      subtraction, product) that separates exact from computed parameters, from which the margin
-      (1 + 8u) would yield the hypothesis used here. *)
+      ends are normal numbers.  (The error analysis of the three roundings - reciprocal, subtraction,
+      product - that separates exact from computed parameters is [C14_raw_parameter_error] below.) *)
   Theorem C14_float_complete_partial : forall (b : BBox bf) (r : Ray bf) (i : V3 bf),
     widen_big prec emax Hprec Hmax ->
     let o := rorigin r in
@@ -198,3 +201,103 @@ Theorem C14_mirror_cases_accepted :
   bbox_intersect (bbox_new (P zero64 zero64 zero64) (P one64 one64 zero64)) (mkRay (P mone64 half64 zero64) (P one64 zero64 zero64))
                  (inv64 (P one64 zero64 zero64)) = true.
 Proof. exact mirror_cases_accepted. Qed.
+
+(** ** Thm 3 (float-tier completeness with a relative margin on the EXACT parameters), every binary format.
+    Notation: [u = uR prec = 2^-prec]; [boxR b], [rayR r] = the real values of the float inputs, so
+    [t_near], [t_far] are the exact sorted slab parameters [(face - o)/d] of Thm 1; [hi3 u = (1+u)^3],
+    [lo3 u = (1-u)^3]; [kmin = 2^(emin+prec-1)] the smallest positive normal number.
+    Side conditions ([side b r i], one [axis_side] per axis): the nine input coordinates finite, the
+    direction component finite and non-zero, [1/d = i (1 + e)] with [|e| <= u] ([recip_ok]: true of
+    [i = 1.0 / d] whenever that quotient is a normal number), both products [(face - o) * i] and their
+    widened values finite (no overflow), and no underflow in the product: its result is a normal
+    number, or [face = o] (exact zero).  The subtraction needs no condition.  All of it is evaluated
+    by the model ([margin_okb], with [i = inv_dirB d = 1.0 / d] computed).
+    Format conditions ([margin_format]): [prec >= 5] and the rounded constant [1 + 2 gamma3 >= 1 + 6u]
+    (binary32, binary64: equality, [C14_margin_formats_ok]).
+    Margin ([clear_by 2]): every far end [t_far a > 0], and for two DIFFERENT axes [a <> a'] with
+    [t_near a > 0]: [t_near a * (1 + 2u) <= t_far a'].  Nothing is asked of near and far end of the
+    same axis (flat slabs: both ends bit-equal) nor of a near end [<= 0] (origin inside that slab:
+    signs survive the roundings).  The constant 2 is the smallest integer the argument supports:
+    seven roundings (three per parameter, one in the widening product) against [1 + 6u] leave
+    [(1+u)^4 / ((1-u)^3 (1+6u)) = 1 + u + 18u^2 + ...]. *)
+Section C14_margin.
+  Variable prec emax : Z.
+  Context (Hprec : FLX.Prec_gt_0 prec) (Hmax : Prec_lt_emax prec emax).
+  Notation bf := (binary_float prec emax).
+  Notation finite x := (is_finite x = true).
+  Notation u := (uR prec).
+  Notation kmin := (bpow radix2 (3 - emax - prec + prec - 1)).
+  Notation mfmt := (margin_format prec emax Hprec Hmax).
+  Notation sideok := (side prec emax Hprec Hmax).
+
+  (** the error analysis of one plane parameter: three roundings (subtraction, reciprocal, product) *)
+  Theorem C14_raw_parameter_error : forall f o d i : bf,
+    finite f -> finite o -> recip_ok prec emax d i -> finite (raw f o i) ->
+    (kmin <= Rabs (B2R (raw f o i)) \/ B2R f = B2R o) ->
+    let T := (B2R f - B2R o) / B2R d in let X := B2R (raw f o i) in
+    Rabs (T - X) <= (hi3 u - 1) * Rabs X /\ lo3 u * Rabs X <= Rabs T <= hi3 u * Rabs X.
+  Proof. exact (raw_error prec emax Hprec Hmax). Qed.
+  Theorem C14_reciprocal_ok : forall d : bf, B2R d <> 0 ->
+    finite (Bdiv mode_NE (@n1 bf (NumB prec emax Hprec Hmax)) d) ->
+    kmin <= Rabs (B2R (Bdiv mode_NE (@n1 bf (NumB prec emax Hprec Hmax)) d)) ->
+    recip_ok prec emax d (Bdiv mode_NE (@n1 bf (NumB prec emax Hprec Hmax)) d).
+  Proof. exact (recip_of_div prec emax Hprec Hmax). Qed.
+
+  (** Thm 3 *)
+  Theorem C14_float_complete_margin : forall (b : BBox bf) (r : Ray bf) (i : V3 bf),
+    mfmt -> sideok b r i -> clear_by prec 2 (boxR prec emax b) (rayR prec emax r) -> bbox_intersect b r i = true.
+  Proof. exact (float_complete_margin prec emax Hprec Hmax). Qed.
+
+  (** in terms of [t_enter = max t_near], [t_exit = min t_far] (this form asks the margin of a thin slab's own ends too) *)
+  Theorem C14_float_complete_enter_exit : forall (b : BBox bf) (r : Ray bf) (i : V3 bf),
+    mfmt -> sideok b r i ->
+    let bR := boxR prec emax b in let rR := rayR prec emax r in
+    0 < t_exit bR rR -> (0 < t_enter bR rR -> t_enter bR rR * (1 + 2 * u) <= t_exit bR rR) ->
+    bbox_intersect b r i = true.
+  Proof. exact (float_complete_enter_exit prec emax Hprec Hmax). Qed.
+
+  (** the user-level corollary: a ray with a point [o + t d], [t > 0] (exact arithmetic), inside the box
+      whose faces are pulled inwards by [2u |face - o|] is accepted; at most one axis may be flat
+      instead, the point lying exactly in that plane *)
+  Theorem C14_float_complete_point : forall (b : BBox bf) (r : Ray bf) (i : V3 bf) (t : R),
+    mfmt -> sideok b r i -> 0 < t ->
+    let p := ray_project (rayR prec emax r) t in let o := rorigin (rayR prec emax r) in
+    (forall a, in_margin prec (boxR prec emax b) o p a \/ on_flat (boxR prec emax b) p a) ->
+    (forall a a', a <> a' -> in_margin prec (boxR prec emax b) o p a \/ in_margin prec (boxR prec emax b) o p a') ->
+    bbox_intersect b r i = true.
+  Proof. exact (float_complete_point prec emax Hprec Hmax). Qed.
+
+  (** the side conditions are decided by the model, the reciprocal direction being the computed [1.0 / d] *)
+  Theorem C14_margin_side_conditions_checked : forall (b : BBox bf) (r : Ray bf),
+    margin_okb prec emax Hprec Hmax b r = true -> sideok b r (inv_dirB prec emax Hprec Hmax (rdir r)).
+  Proof. exact (margin_okb_side prec emax Hprec Hmax). Qed.
+  Theorem C14_float_complete_checked : forall (b : BBox bf) (r : Ray bf),
+    mfmt -> margin_okb prec emax Hprec Hmax b r = true ->
+    clear_by prec 2 (boxR prec emax b) (rayR prec emax r) ->
+    bbox_intersect b r (inv_dirB prec emax Hprec Hmax (rdir r)) = true.
+  Proof. exact (float_complete_okb prec emax Hprec Hmax). Qed.
+End C14_margin.
+
+(** binary64 and binary32 meet the format conditions of Thm 3 *)
+Theorem C14_margin_formats_ok : margin_format 53 1024 Hprec53 Hmax1024 /\ margin_format 24 128 Hprec24 Hmax128.
+Proof. exact (conj margin_format_64 margin_format_32). Qed.
+
+(** Thm 3 on binary64, the format of the crate's default build *)
+Theorem C14_float_complete_binary64 : forall (b : BBox b64) (r : Ray b64),
+  margin_okb 53 1024 Hprec53 Hmax1024 b r = true -> clear_by 53 2 (boxR 53 1024 b) (rayR 53 1024 r) ->
+  bbox_intersect b r (inv64 (rdir r)) = true.
+Proof. exact (fun b r => float_complete_okb 53 1024 Hprec53 Hmax1024 b r margin_format_64). Qed.
+
+Theorem C14_float_complete_binary32 : forall (b : BBox b32) (r : Ray b32),
+  margin_okb 24 128 Hprec24 Hmax128 b r = true -> clear_by 24 2 (boxR 24 128 b) (rayR 24 128 r) ->
+  bbox_intersect b r (inv_dirB 24 128 Hprec24 Hmax128 (rdir r)) = true.
+Proof. exact (fun b r => float_complete_okb 24 128 Hprec24 Hmax128 b r margin_format_32). Qed.
+
+(** non-vacuity: unit cube, origin (-1, 1/4, 1/2), direction (3, 1/2, -1/4) in binary64: format and side
+    conditions hold (the latter by evaluation), the exact parameters x [1/3, 2/3], y [-1/2, 3/2],
+    z [-2, 2] have the margin, and the model answers [true] *)
+Example C14_margin_nonvacuous :
+  margin_format 53 1024 Hprec53 Hmax1024 /\ margin_okb 53 1024 Hprec53 Hmax1024 m_box m_ray = true /\
+  clear_by 53 2 (boxR 53 1024 m_box) (rayR 53 1024 m_ray) /\
+  bbox_intersect m_box m_ray (inv64 (rdir m_ray)) = true.
+Proof. exact margin_nonvacuous. Qed.
